@@ -55,7 +55,8 @@ type Gen struct {
 	exSeq   int
 	// last voteproof round per height that the flow steered to a majority
 	acceptRound map[base.Height]base.Round
-	past        []stageCtx // every stage the flow went through, oldest first
+	past        []stageCtx  // every stage the flow went through, oldest first
+	hiddenFor   base.Height // ballots of this height are held now (their suffrage is hidden, revealed later); 0 = none
 }
 
 func NewGen(w *World, rng *rand.Rand, o ScriptOpts) *Gen {
@@ -515,7 +516,14 @@ func (g *Gen) stage(c stageCtx, draw bool) {
 	if len(voters) > 1 && r.Intn(3) == 0 {
 		dissent = r.Intn(len(voters))
 	}
+	held := g.hiddenFor != 0 && g.hiddenFor == c.p.Height()
 	for seq, i := range order {
+		if held && (i == absent || r.Intn(4) == 0) {
+			// while the suffrage is unknown the box can only hold what arrives:
+			// things it has to throw away once the suffrage is known, through
+			// Vote (with voteproof) and through VoteSignFact (bare)
+			g.heldHostile(c, voters[i])
+		}
 		if i == absent {
 			continue
 		}
@@ -557,6 +565,41 @@ func (g *Gen) stage(c stageCtx, draw bool) {
 		g.add(Step{Op: "count", Desc: "count"})
 	}
 	g.past = append(g.past, c)
+}
+
+// heldHostile adds, for the seat of member n, submissions a ballotbox must not
+// count: the member's address with another key, a node outside the suffrage,
+// a member's ballot with an expired expel.
+func (g *Gen) heldHostile(c stageCtx, n base.LocalNode) {
+	w := g.W
+	r := g.R
+	mi := w.MemberIndex(n.Address())
+	bare := func(st Step) Step {
+		if c.stage != "sc" && c.ex == nil {
+			return asSignFact(st)
+		}
+		return st
+	}
+	switch r.Intn(5) {
+	case 0: // foreign key, bare sign fact
+		g.add(bare(g.voteStep(c, w.Imposters[mi], "A", "", "held:imposter", false)))
+	case 1: // foreign key, full ballot
+		g.add(g.voteStep(c, w.Imposters[mi], "A", "", "held:imposter", false))
+	case 2: // outsider, bare sign fact
+		g.add(bare(g.voteStep(c, w.Outsiders[r.Intn(2)], "A", "", "held:outsider", false)))
+	case 3: // outsider, full ballot
+		g.add(g.voteStep(c, w.Outsiders[r.Intn(2)], "A", "", "held:outsider", false))
+	default: // expired expel on a member's ballot
+		if c.stage != "sc" && g.sizeAt(c.p.Height()) >= 2 {
+			all := g.idxAt(c.p.Height())
+			t := all[r.Intn(len(all))]
+			e := g.newExpel(c.p.Height(), []int{t}, all, "expired")
+			e.Start, e.End = c.p.Height()-2, c.p.Height()-1
+			hc := c
+			hc.ex = e
+			g.add(g.voteStep(hc, n, "A", "", "held:expired-expel", false))
+		}
+	}
 }
 
 // stale adds a late ballot (or bare sign fact) for a stage the flow finished
@@ -613,6 +656,7 @@ func (g *Gen) Flow() []Step {
 		deferred := r.Float64() < g.O.Deferred
 		if deferred {
 			g.add(Step{Op: "hide", Height: h - 1, Desc: fmt.Sprintf("hide suffrage of height %d", h-1)})
+			g.hiddenFor = h
 		}
 		var round base.Round
 		for {
@@ -633,6 +677,7 @@ func (g *Gen) Flow() []Step {
 				g.add(Step{Op: "reveal", Height: h - 1, Desc: fmt.Sprintf("reveal suffrage of height %d", h-1)})
 				g.add(Step{Op: "count", Desc: "count"})
 				deferred = false
+				g.hiddenFor = 0
 			}
 			if !(draw && drawAt == 0) {
 				if ex != nil {
@@ -644,6 +689,7 @@ func (g *Gen) Flow() []Step {
 				g.add(Step{Op: "reveal", Height: h - 1, Desc: fmt.Sprintf("reveal suffrage of height %d", h-1)})
 				g.add(Step{Op: "count", Desc: "count"})
 				deferred = false
+				g.hiddenFor = 0
 			}
 			if !draw {
 				g.acceptRound[h] = round
@@ -765,6 +811,18 @@ func (g *Gen) DirectedINITVP(n base.LocalNode, p base.Point, variant, vpHostile 
 	g.add(g.initBallot(n, p, variant, nil, vpHostile, "directed", true))
 	if len(g.Steps) == before {
 		return Step{Op: "count", Desc: "count (directed ballot was invalid)"}
+	}
+	st := g.Steps[len(g.Steps)-1]
+	g.Steps = g.Steps[:before]
+	return st
+}
+
+// DirectedSignFactBy is a bare INIT sign fact (VoteSignFact) of an arbitrary signer.
+func (g *Gen) DirectedSignFactBy(n base.LocalNode, p base.Point, variant string) Step {
+	before := len(g.Steps)
+	g.add(asSignFact(g.initBallot(n, p, variant, nil, "", "directed", false)))
+	if len(g.Steps) == before {
+		return Step{Op: "count", Desc: "count (directed sign fact was invalid)"}
 	}
 	st := g.Steps[len(g.Steps)-1]
 	g.Steps = g.Steps[:before]
